@@ -83,7 +83,9 @@ def gp_data(case):
     X = np.array([[BASE[r][c] + off for c in cols] for r in rows])
     y = np.array([sum(np.sin(1.3 * BASE[r][c] + i) for i, c in enumerate(cols)) + 0.3 * BASE[r][cols[0]] for r in rows])
     yerr = None if case["noise"] == "none" else (np.full(n, 0.1) if case["noise"] == "uniform" else np.array([[0.02, 0.3, 0.1, 0.05, 0.2, 0.01][j % 6] for j in range(n)]))
-    return X, y, yerr
+    # units: the same problem with x measured in units of 1/xscale and y (and its errors) in units of 1/yscale
+    xs, ys = float(case.get("xscale", 1.0)), float(case.get("yscale", 1.0))
+    return X * xs, y * ys, (None if yerr is None else yerr * ys)
 
 
 def mp_prop(F, inp, deltas, d):
@@ -118,10 +120,12 @@ def ev_acq(case):
     d, n, kind, mk = case["d"], case["n"], case["acq"], case["mean"]
     aname, mname = ACQ[kind], MEANS[mk]
     X, y, yerr = gp_data(case)
+    xs, ys = float(case.get("xscale", 1.0)), float(case.get("yscale", 1.0))
     a, ls = HP[case["hp"]]
-    ls = ls[:d]
+    a, ls = a * ys, [l * xs for l in ls[:d]]  # amplitude in units of y, length-scales in units of x
     kt = [float(np.log(a))] + [float(np.log(l)) for l in ls]
-    lin = MEAN_LIN[:d] if mk == "L" else []
+    lin = [v * ys / xs for v in MEAN_LIN[:d]] if mk == "L" else []
+    c04 = 0.4 * ys  # the constant of the mean function where it is not used for steering
     ymax0 = float(np.max(y))
     kappa = case.get("kappa", 2.0)
     ref = R.RefGP(X.tolist(), y.tolist(), ["SE"], kt, mk, [0.0] + lin, None if yerr is None else yerr.tolist())
@@ -131,12 +135,17 @@ def ev_acq(case):
     W = R.richardson_weights(LEVELS)
     fails, seen, tags, slack, skipped, nev = [], {}, set(), {}, {}, 0
 
+    units = "" if xs == 1.0 and ys == 1.0 else "/units-far-from-1"
+    sname = "" if not units else "scaled/"
+
     def bad(key, what, **kw):
+        key = key + units
         seen[key] = seen.get(key, 0) + 1
         if seen[key] == 1:
-            fails.append(fail(key, what, **kw))
+            fails.append(fail(key, what + (f" [x in units of {1 / xs:g}, y in units of {1 / ys:g}]" if units else ""), xscale=xs, yscale=ys, **kw))
 
     def cmp(name, key, got, want, tol, what, **kw):
+        name = sname + name
         err = abs(float(got) - float(want))
         r = err / tol if tol > 0 else (0.0 if err == 0 else float("inf"))
         if not (r <= slack.get(name, -1.0)):
@@ -161,23 +170,23 @@ def ev_acq(case):
         ref.set_y(y.tolist())
         ref.set_mean(mk, [0.0] + lin)
         mu0 = ref.mu(ql)
-        ref.set_mean(mk, [1.0] + lin)
+        ref.set_mean(mk, [ys] + lin)
         mu1 = ref.mu(ql)
         sig_ref = mp.sqrt(ref.var(ql))
-        den = mu1 - mu0
+        den = (mu1 - mu0) / R.M(ys)
         wts = ref.weights(ql)
         j = min(range(n), key=lambda a_: abs(wts[a_]))
         othermax = max(float(v) for k_, v in enumerate(y) if k_ != j)
         yz = y.copy()
         yz[j] = 0.0
         ref.set_y(yz.tolist())
-        ref.set_mean(mk, [0.4] + lin)
+        ref.set_mean(mk, [c04] + lin)
         mua = ref.mu(ql)
         per_z = {}
         for zt in zs:
             yq = y
             if zt is None:
-                t0, knob = 0.4, "none"
+                t0, knob = c04, "none"
             elif abs(den) >= 0.05:
                 t0, knob = float((R.M(ymax0) + R.M(zt) * sig_ref - mu0) / den), "mean-constant"
             else:
@@ -187,7 +196,7 @@ def ev_acq(case):
                     continue
                 yq = y.copy()
                 yq[j] = yj
-                t0, knob = 0.4, "incumbent-data-value"
+                t0, knob = c04, "incumbent-data-value"
             ymax = float(np.max(yq))
             mt = [t0] + lin
             ref.set_y(yq.tolist())
@@ -351,7 +360,7 @@ def ev_acq(case):
                 cmp(f"optgrad/{kind}/reference", f"optgrad/{aname}/{mname}/{br}/reference", ogg[i], gB[i], tolGB[i], f"{aname}.opt_func_gradient vs gradient of the reference objective", **kw)
                 if gscale > 0:
                     slack[f"info/fd-tolerance-over-gradient-scale/{kind}"] = max(slack.get(f"info/fd-tolerance-over-gradient-scale/{kind}", 0.0), tol_fd / gscale)
-            tags.add(f"{kind},d={d},n={n},hp={case['hp']},noise={case['noise']},mean={mk},q={qname},z={zt if zt is None else round(zt, 3)},steer={knob}" + (f",kappa={kappa}" if kind == "UCB" else ""))
+            tags.add(f"{kind},d={d},n={n},hp={case['hp']},noise={case['noise']},mean={mk},q={qname},z={zt if zt is None else round(zt, 3)},steer={knob}" + (f",kappa={kappa}" if kind == "UCB" else "") + (f",x*{xs:g},y*{ys:g}" if units else ""))
             if kind == "EI":
                 tags.add(f"EI branch by reference z: {'far-tail' if zref < -3 else 'ordinary'}")
 
@@ -422,8 +431,46 @@ def objective(x):
     return float(np.sin(1.3 * x[0]) + 0.3 * x[0] + (np.cos(0.9 * x[-1]) if x.size > 1 else 0.0))
 
 
+# Designs whose incumbent maximum sits ON THE BOUNDARY of the search box and is a row of the data: the objective rises monotonically
+# towards one corner of the box (sign pattern `corner`), or - "edge", d = 2 - towards one face with an interior ridge along it.
+BOUNDARY_LAYOUTS = ("corner", "edge")
+
+
+def boundary_objective(cfg):
+    sg = [1.0 if c else -1.0 for c in cfg["corner"]]
+
+    def f(x):
+        x = np.asarray(x, float).reshape(-1)
+        v = 0.5 * sg[0] * x[0]
+        if x.size > 1:
+            v += (0.3125 * sg[1] * x[1]) if cfg["layout"] == "corner" else -0.25 * (x[1] - 1.5) ** 2
+        return float(v)
+
+    return f
+
+
+def objective_of(cfg):
+    return boundary_objective(cfg) if cfg["layout"] in BOUNDARY_LAYOUTS else objective
+
+
 def initial_data(cfg):
     d = cfg["d"]
+    if cfg["layout"] in BOUNDARY_LAYOUTS:
+        # the box first; then the initial design with the boundary point (a corner, or the ridge point of a face) as its LAST row
+        bounds = [(-1.0, 4.0)] * d if cfg.get("bform", "tuples") == "iarray" else [(-0.25, 3.25)] * d
+        bpt = [bounds[i][1 if cfg["corner"][i] else 0] for i in range(d)]
+        if cfg["layout"] == "edge":
+            if d != 2:
+                raise HarnessError("the edge layout needs d = 2")
+            bpt[1] = 1.5
+        rows = ([[0.25], [1.0], [2.5]] if d == 1 else [[0.25, 0.5], [1.0, 2.25], [2.5, 1.0], [0.75, 2.75]]) + [bpt]
+        f = boundary_objective(cfg)
+        x = np.array(rows)
+        y = np.array([f(r) for r in rows])
+        if int(np.argmax(y)) != len(rows) - 1 or np.sum(y == y.max()) != 1:
+            raise HarnessError(f"boundary design: the incumbent is not the boundary point: {y.tolist()}")
+        e = np.array([0.05, 0.1, 0.02, 0.07, 0.03][: len(rows)]) if cfg["yerr"] else None
+        return rows, x, y, e, bounds
     if d == 1:
         xv = [0.25, 1.0, 2.5]
         rows = [[v] for v in xv]
@@ -735,12 +782,21 @@ def run_one_history(cfg, hist, bad, counters):
                     if not np.all(np.isfinite(pv)):
                         bad(f"history/propose-{which}/not-finite", f"proposal {pv.tolist()}", history=done)
                     elif not (np.all(pv >= lo) and np.all(pv <= hi)):
-                        bad(f"history/propose-{which}/outside-bounds", f"proposal {pv.tolist()} outside {bounds}", history=done, proposal=pv.tolist())
+                        sfx = "/incumbent-on-the-boundary-and-in-the-data" if cfg["layout"] in BOUNDARY_LAYOUTS else ""
+                        bad(f"history/propose-{which}/outside-bounds{sfx}", f"proposal {pv.tolist()} outside {bounds}" + (f" (design with the incumbent maximum at the {cfg['layout']} point {rows[-1]} of the box, "
+                            f"which is a row of the data; acquisition {aname}{'' if cfg['kappa'] is None else ' kappa=' + str(cfg['kappa'])})" if sfx else ""), history=done, proposal=pv.tolist(),
+                            excess=np.maximum(np.maximum(lo - pv, pv - hi), 0.0).tolist())
                     counters["tags"].add(f"proposal {which} d={d} {'on-boundary' if (np.any(pv == lo) or np.any(pv == hi)) else 'interior'}")
                     streak = 1
                     while streak <= pos and hist[pos - streak] in ("Pb", "Pd"):
                         streak += 1
                     counters["tags"].add(f"proposal {which} d={d} bounds-given-as={bform} proposals-in-a-row={streak}")
+                    if cfg["layout"] in BOUNDARY_LAYOUTS and np.all(np.isfinite(pv)):
+                        onb = bool(np.any(pv <= lo) or np.any(pv >= hi))
+                        near = min(float(np.max(np.abs(pv - np.array(r_)) / (hi - lo))) for r_ in mx)
+                        where_ = "at-a-row-of-the-data" if near <= 1e-6 else "new-location"
+                        counters["tags"].add(f"boundary-design {cfg['layout']} d={d} acq={cfg['acq']}{'' if cfg['kappa'] is None else ',kappa=' + format(cfg['kappa'], 'g')} {which}: proposal "
+                                             f"{'on-boundary' if onb else 'interior'} {where_} proposals-in-a-row={streak}")
                 pending = p
                 if isinstance(p, np.ndarray):
                     snap.add(f"proposal-returned-by-propose_evaluation#{pos}", p)
@@ -759,7 +815,7 @@ def run_one_history(cfg, hist, bad, counters):
                 else:
                     nx, src = menu_point(d, nadd), f"menu-form-{nadd % 4}"
                 vals = np.asarray(nx, float).reshape(-1).tolist()
-                yv = (max(my) + 0.25) if act in REPEATS else objective(vals)
+                yv = (max(my) + 0.25) if act in REPEATS else objective_of(cfg)(vals)
                 ny = [yv, np.array(yv), np.array([yv]), np.float64(yv)][nadd % 4]
                 ev = 0.05 + 0.01 * nadd
                 ne = [ev, np.array([ev]), np.array(ev), ev][nadd % 4]
@@ -1120,6 +1176,25 @@ def run(ck):
             cases.append(dict(base, acq="UCB", kappa=kappa))
         cases.append(dict(base, acq="MV"))
     ck.run_cases("acq", cases, chunk=1)
+    # ---- units far from 1: the same lattice with x (data, query points, length-scales, bounds of nothing: no optimiser here) multiplied by xscale and
+    # y, y_err, amplitude and mean-function parameters by yscale; every oracle of part D (all tolerances are relative to the problem's own scales)
+    scales = [(1.0, 1e-9), (1.0, 1e-6), (1.0, 1e6), (1e-6, 1.0), (1e6, 1.0)] + ([] if quick else [(1e-6, 1e6), (1e6, 1e-6), (1e6, 1e-9)])
+    scases = []
+    for si, (xsc, ysc) in enumerate(scales):
+        for d in (1, 2):
+            if quick:
+                k_ = si + d + seed
+                combos = [(3 if k_ % 2 else 6, hps[k_ % 3], ["uniform", "none"][(k_ // 2) % 2], "CL"[(k_ // 3) % 2], seed % 4)]
+            else:
+                combos = list(itertools.product([3, 6], hps, ["uniform", "none"], ["C", "L"], [seed % 4]))
+            for n, hp, noise, mean, g in combos:
+                base = {"d": d, "n": n, "design": g, "hp": hp, "noise": noise, "mean": mean, "shift": seed % 4, "xscale": xsc, "yscale": ysc}
+                scases.append(dict(base, acq="EI", zs=zs))
+                for kappa in (2.0, 0.0):
+                    scases.append(dict(base, acq="UCB", kappa=kappa))
+                scases.append(dict(base, acq="MV"))
+    sres = ck.run_cases("acq", scases, chunk=1)
+    ck.extra["units_far_from_1"] = {"scales_x_y": [list(t) for t in scales], "cases": len(scases), "library_calls": int(sum(r.get("n", 0) for r in sres))}
     # ---------------------------------------------------------------- part C
     scripts = ["0", "half", "1-", "cycle"]
     if quick:
@@ -1145,6 +1220,27 @@ def run(ck):
                 for first in [None] + ACTIONS:
                     hcases.append({"d": d, "acq": acq, "kappa": kappa, "script": script, "yerr": yerr, "layout": layout, "xform": xform, "bform": bform, "first": first, "depth": 3})
     res = ck.run_cases("history", hcases, chunk=1)
+    # ---- boundary designs: the incumbent maximum is a corner of the box / the ridge point of a face AND a row of the data; every history of length <= 3
+    bcases = []
+    bacq = (("UCB", 0.0), ("EI", None), ("MV", None), ("UCB", 2.0))
+    for d in (1, 2):
+        xforms = ("col", "flat", "strided") if d == 1 else ("own", "view")
+        lay = [("corner", list(c)) for c in itertools.product((1, 0), repeat=d)] + ([("edge", [1, 1]), ("edge", [0, 1])] if d == 2 else [])
+        if quick:
+            lay = [lay[seed % 2 ** d]] + ([lay[4 + seed % 2]] if d == 2 else [])
+        for li, (layout, corner) in enumerate(lay):
+            for ai, (acq, kappa) in enumerate(bacq):
+                for yerr in ([bool((li + ai + d + seed) % 2)] if quick else [False, True]):
+                    k_ = li + ai + d + seed + int(yerr)
+                    cfgb = {"d": d, "acq": acq, "kappa": kappa, "script": scripts[k_ % len(scripts)], "yerr": yerr, "layout": layout, "corner": corner,
+                            "xform": xforms[k_ % len(xforms)], "bform": BOUND_FORMS[k_ % len(BOUND_FORMS)], "depth": 3}
+                    bcases += [dict(cfgb, first=first) for first in [None] + ACTIONS]
+    bres = ck.run_cases("history", bcases, chunk=1)
+    btags = sorted({t for r in bres for t in r.get("tags", ()) if t.startswith("boundary-design") and "at-a-row-of-the-data" in t and "proposals-in-a-row=3" in t})
+    if not btags and not any(r.get("fails") for r in bres):
+        raise HarnessError("boundary designs: no history with three proposals in a row returned to the boundary point that is already in the data (the situation the designs exist for)")
+    ck.extra["boundary_designs"] = {"configurations": len(bcases) // 4, "histories_per_configuration": 40, "transitions_executed_and_checked": int(sum(r.get("transitions", 0) for r in bres)),
+                                    "third-proposal-in-a-row-at-the-boundary-point-in-the-data": btags}
     # ---- repeated measurements: every history of length <= 3 over {A, Ri, Rl, Pb} that contains a repeat action
     rcases = []
     racq = [("EI", None), ("UCB", 2.0), ("MV", None)]
@@ -1196,6 +1292,15 @@ def run(ck):
     ck.rule = (
         "Part D: cartesian product d{1,2} x n{3,6} x design x hyper-parameter pattern{unit,aniso,short} x noise x mean{Constant,Linear} x 3 query points x "
         "acquisition{EI x z-lattice, UCB kappa{2,0}, MaxVariance}; a tag is one (acquisition, GP configuration, query, z) compared with all oracles. "
+        "Units far from 1 (keys .../units-far-from-1, slack names scaled/...): the same evaluator and ALL its oracles with (x, query points, length-scales) multiplied by xscale and (y, y_err, amplitude, "
+        "mean-function parameters) by yscale for (xscale, yscale) in {(1,1e-9), (1,1e-6), (1,1e6), (1e-6,1), (1e6,1)} (thorough: also (1e-6,1e6), (1e6,1e-6), (1e6,1e-9)) x d{1,2} x acquisition{EI x z-lattice, "
+        "UCB kappa{2,0}, MaxVariance} x (quick: one rotating (n, hyper-parameter pattern, noise, mean); thorough: their product). "
+        "Boundary designs (same history evaluator; key history/propose-<route>/outside-bounds/incumbent-on-the-boundary-and-in-the-data, tags boundary-design ...): initial designs whose LAST row is a corner "
+        "of the search box (d = 1: an end point) or - 'edge', d = 2 - the ridge point of a face, with an objective rising monotonically towards it, so that the incumbent maximum is on the boundary and in the data and "
+        "stays there under every add; every sequence of length <= 3 over {propose(bfgs), propose(diffev), add_evaluation} (three proposals in a row by either route included; an add of the pending proposal repeats "
+        "the boundary point) x acquisition {UCB kappa=0 (pure exploitation: the optimum IS the evaluated boundary point), EI, MaxVariance, UCB kappa=2} x d x (quick: one seed-rotated corner per d and one face; "
+        "thorough: all 2^d corners and two faces, y_err{no,yes}) x rotating script / input form / bounds container; every proposal must lie in the original box, all other invariants and probes as for any history; a "
+        "boundary tag is (layout, d, acquisition, route, proposal on the boundary or not, at a row of the data or new, proposals in a row). "
         "Part C: every sequence of length <= 3 over {propose(bfgs), propose(diffev), add_evaluation} (40 histories per configuration, each rebuilt and replayed "
         "on fresh objects, so three proposals in a row by either route and every mixture are included) x d{1,2} x acquisition x start script over {0,1/2,1-} x y_err{no,yes} x "
         "(bounds layout, input array form) x container form of the search bounds {list of tuples, list of lists, float ndarray (d,2), int64 ndarray (d,2) holding an integer box} - "
@@ -1227,6 +1332,10 @@ def run(ck):
               "compared with a fresh optimiser on the same data as float64 to 64 eps cond(K) x (data scale | prior variance): the hyper-parameter selection of the re-fit is not compared")
     ck.assume("repeated measurements: a second evaluation at a location already in the data is an ordinary evaluation (noisy objective; also without y_err, where the model's diagonal jitter "
               "keeps the covariance factorisable): the property's 'adding an evaluation makes it part of the data and updates the incumbent' has no exception for it; a pending proposal stays pending")
+    ck.assume("units: the property quantifies over 'any regressor state', so the magnitude of x and y is not restricted: the scaled lattices hold the SAME problems in other units (1e-9 .. 1e6 in y, 1e-6 .. 1e6 in x) "
+              "and are judged with the same derived tolerances, which are all relative to the problem's own scales (eps x cond x |mu|, sigma^2, ...); hyper-parameters are given, not fitted, there")
+    ck.assume("boundary designs: 'every proposed evaluation lies inside the search bounds' is claimed for whatever the acquisition's optimum is, including a boundary point that is already a row of the data (noise-free or noisy); "
+              "nothing is claimed about WHICH point is proposed")
     ck.assume("continuous inputs are represented by the listed finite lattice (d<=2, n<=6, SquaredExponential kernel, z in [-40, 8]); z is steered through public inputs only (the mean-function constant, or inside the data hull the value of the incumbent data point); targets above the ceiling reachable inside the hull and points whose variance is below resolution are skipped and counted")
     ck.assume("ExpectedImprovement accuracy: the far-tail form's rounding error everywhere, and additionally the documented form sigma(z F + P) evaluated in doubles wherever that form's own error is below 1e-10 relative (z >~ -3.2); the location of the switch is not prescribed")
     ck.assume("scipy's differential_evolution draws from numpy's global RandomState, which is seeded per call; for it only 'the proposal lies in the bounds' and the data/incumbent invariants are claimed. The random starts of the bfgs route (numpy.random.random imported by name into inference.gp.acquisition and inference.gp.regression) are scripted: every call returns the constant 0, 1/2 or 1-, or cycles through them")
